@@ -32,6 +32,7 @@ fn table(id: &str) -> Option<(RunFn, ReplayFn)> {
         "C02" => (props::c02::run_check, props::c02::replay),
         "C03" => (props::c03::run_check, props::c03::replay),
         "C04" => (props::c04::run_check, props::c04::replay),
+        "C05" => (props::c05::run_check, props::c05::replay),
         "C06" => (props::c06::run, props::c06::replay),
         "C07" => (props::c07::run, props::c07::replay),
         "C08" => (props::c08::run, props::c08::replay),
